@@ -22,7 +22,7 @@ def run(eng: Engine, ck: Check):
 
     # ---- R-C20-CAP
     writers = [(f, st, v) for f, st, v in eng.stores_to_attr('bucket') if f.module.rel == RL]
-    ck.floor('R-C20-CAP', len(writers), 4)
+    ck.floor('R-C20-CAP', len(writers), 3)
     for f, st, v in writers:
         if f.name == '__init__':
             ck.ob('R-C20-CAP', f, st, 'the bucket starts empty', const(v) == 0, unparse(st), construct='bucket initial')
